@@ -533,6 +533,8 @@ where
                         // is durable — durable_index may exceed max_index after truncation,
                         // which would cause flush() to short-circuit before the replace lands.
                         self.remove_range(diverge_index..=u64::MAX);
+                        // The next index a leader may allocate follows the shortened log.
+                        self.next_id.store(diverge_index, Ordering::Release);
                         self.insert_to_memory(tail);
                         let (done_tx, done_rx) = oneshot::channel();
                         self.command_sender
@@ -626,6 +628,12 @@ where
         // TODO: to be double thinking
         if cutoff_index.index >= current_durable {
             self.durable_index.store(cutoff_index.index, Ordering::Release);
+        }
+
+        // A boundary beyond the last entry (snapshot installed ahead of the log) moves the next
+        // index a leader may allocate as well.
+        if self.next_id.load(Ordering::Acquire) <= cutoff_index.index {
+            self.next_id.store(cutoff_index.index + 1, Ordering::Release);
         }
 
         // Record purge boundary so entry_term() can return the correct term for
@@ -1177,6 +1185,10 @@ where
         // Reset boundaries
         self.min_index.store(0, Ordering::Release);
         self.max_index.store(0, Ordering::Release);
+
+        // The purge boundary belongs to the discarded log.
+        self.last_purged_index.store(0, Ordering::Release);
+        self.last_purged_term.store(0, Ordering::Release);
 
         // Clear term indexes to ensure consistency after reset
         self.term_first_index.clear();
